@@ -91,6 +91,27 @@ ASSUMPTIONS = [
 ]
 EXHAUSTIVE = {"quick": False, "thorough": False}
 
+
+def _qs(x):
+    """exact rational of a finite float; non-finite floats cross the protocol as "nan" / "inf" / "-inf"
+    (a non-finite coordinate is an observation - a point outside every domain - not a harness failure)"""
+    x = float(x)
+    if math.isnan(x):
+        return "nan"
+    if math.isinf(x):
+        return "inf" if x > 0 else "-inf"
+    return core.qstr(x)
+
+
+def _ql(a):
+    import numpy as np
+
+    a = np.asarray(a)
+    if a.ndim == 0:
+        return _qs(a.item())
+    return [_ql(x) for x in a]
+
+
 INTERVALS = [(0.0, 1.0), (-1.0, 1.0), (-3.0, 3.0), (-2.5, -0.5), (0.25, 8.0), (-1024.0, 3.0), (5.0, 5.5), (-0.125, 0.0)]
 
 
@@ -302,7 +323,7 @@ def _run(case):
         return {"error": core.err_kind(e), "stage": "init", "stores": None, "steps": []}
     st0 = _stores(case, g)
     obs = {"error": None, "stage": None,
-           "stores": {k: (None if v is None else core.qlist(v)) for k, v in st0.items()},
+           "stores": {k: (None if v is None else _ql(v)) for k, v in st0.items()},
            "shapes": {k: (None if v is None else list(v.shape)) for k, v in st0.items()},
            "dtype": str(next(v.dtype for v in st0.values() if v is not None)),
            "steps": [], "resets": 0}
@@ -322,17 +343,17 @@ def _run(case):
                     obs["resets"] += 1
                 prev[name] = st[name].copy()
         if case["kind"] == "ode":
-            step["t"] = core.qlist(np.asarray(bt.temporal_batch))
+            step["t"] = _ql(np.asarray(bt.temporal_batch))
             step["shape"] = list(bt.temporal_batch.shape)
         elif case["kind"] == "statio":
-            step["x"] = core.qlist(np.asarray(bt.inside_batch))
-            step["dx"] = None if bt.border_batch is None else core.qlist(np.asarray(bt.border_batch))
+            step["x"] = _ql(np.asarray(bt.inside_batch))
+            step["dx"] = None if bt.border_batch is None else _ql(np.asarray(bt.border_batch))
             step["shape"] = [list(bt.inside_batch.shape),
                              None if bt.border_batch is None else list(bt.border_batch.shape)]
         else:
-            step["tx"] = core.qlist(np.asarray(bt.times_x_inside_batch))
+            step["tx"] = _ql(np.asarray(bt.times_x_inside_batch))
             tdx = bt.times_x_border_batch
-            step["tdx"] = None if tdx is None else core.qlist(np.asarray(tdx))
+            step["tdx"] = None if tdx is None else _ql(np.asarray(tdx))
             step["shape"] = [list(bt.times_x_inside_batch.shape), None if tdx is None else list(tdx.shape)]
         obs["steps"].append(step)
     return obs
@@ -409,6 +430,8 @@ def _grid_compare(impl, model, bounds, x64):
 def judge(case, obs, a):
     if a is None:
         return {"status": "violation", "clause": "array-rank-differs-from-the-declared-shape"}
+    if a.get("nonfinite"):
+        return {"status": "violation", "clause": a["clause"]}
     if a["error"] == "sampler_contract":
         if not a["holds"]:
             return {"status": "violation", "clause": a["clause"], "step": a.get("step")}
